@@ -154,6 +154,11 @@ def gen_cases(tier, seed):
         c["how"] = ["direct", "default", "name", "module"][k % 4]
         # every third case: a design with the same request is first compiled to ANOTHER PDK in the same process (its outcome is ignored)
         c["pre"] = others[c["pdk"]] if k % 3 == 1 else ""
+        # every fourth by-model case: the SAME PDK first compiles a plain request by parameters (type / family / threshold left at their defaults, which
+        # are also what the by-model request carries) - selection by model name may not depend on it
+        c["pre_same"] = c["req"]["by"] == "model" and k % 4 == 2
+        # every fifth case: compiled in ONE call together with another design whose sub-module has the same NAME (a different module)
+        c["shadow"] = k % 5 == 3
     return cases
 
 
@@ -341,10 +346,25 @@ def run_case(args):
                 importlib.import_module(PDKS[case["pre"]]["module"]).compile(pre)
             except Exception:
                 pass
+        if case.get("pre_same"):
+            try:
+                pre, _ = build_design(h, dict(req, by="params", model="", fam="NONE"), tag + "q")
+                pm.compile(pre)
+            except Exception:
+                pass
         b, bmid = build_design(h, req, tag)
+        decoy = None
+        if case.get("shadow"):
+            decoy, dmid = build_design(h, dict(req, sized="wl" if req["sized"] != "wl" else ""), tag + "d")
+            dmid.name = bmid.name          # another module of the same name, reached first in the same compile call
         try:
             how = case["how"]
-            if how == "direct":
+            if decoy is not None:
+                how = "list"
+                pm.compile([decoy, b])
+            if how == "list":
+                pass
+            elif how == "direct":
                 pm.compile(b)
             elif how == "default":
                 hp.set_default(pm)
@@ -448,7 +468,7 @@ def cell_libs():
 
 def run(tier, seed, replay_file=None):
     o = Outcome(PID, tier, seed)
-    o.rule = ("registry: every history of 3 operations over 3 stand-in PDK modules (TLC, exhaustive), each in a fresh process; devices: every entry of every "
+    o.rule = ("registry: every history of 3 operations over 3 stand-in PDK modules and of 4 operations over 2 (thorough: 4 over 3) (TLC, exhaustive), each in a fresh process; devices: every entry of every "
               "device table of Sky130 / GF180 requested by model name through each generic primitive of its kind, every MOS (type, family, threshold) triple "
               "for all four PDKs (quick: seeded sample of the triples), sizes given / defaulted, compiled directly / by default / by name / by module; a seeded "
               "sample of the logic-cell libraries. Non-trivial = a technology-mapped instance present; distinct by case.")
@@ -456,9 +476,12 @@ def run(tier, seed, replay_file=None):
     rnd = random.Random(seed)
     from ..hd import h  # noqa: F401
     # (a)
-    r = tlc.must_ok(tlc.run("mc/MC_Pdk.tla", workers=4, tag="c15mc"), "MC_Pdk")
-    o.add_mc("MC_Pdk", r, "3 PDK modules, Depth 3")
-    hists = r.cases
+    hists = []
+    for cfg, what in ([("mc/MC_Pdk.cfg", "3 PDK modules, Depth 3"), ("mc/MC_Pdk_2x4.cfg", "2 PDK modules, Depth 4")] if tier == "quick" else
+                      [("mc/MC_Pdk_3x4.cfg", "3 PDK modules, Depth 4")]):
+        r = tlc.must_ok(tlc.run("mc/MC_Pdk.tla", cfg, workers=4, tag="c15mc"), cfg)
+        o.add_mc("MC_Pdk", r, what)
+        hists += r.cases
     import multiprocessing as mp
     ctx = mp.get_context("fork")
     with ctx.Pool(NPROC, maxtasksperchild=1) as pool:
